@@ -10,6 +10,10 @@ import time
 import z3
 
 
+import re as _re
+_DIGITS = _re.compile(r"\d+")
+
+
 class Inconclusive(BaseException):
     """Budget exhausted or solver said unknown: never counted as a pass."""
 
@@ -63,6 +67,22 @@ def timed_check(solver, *assumptions):
 #   ["c", value, last, tried]      concretise: `tried` = values already explored by siblings
 #   ["c?", tried]                  (prefix only) concretise must pick a value outside `tried`
 
+def _fp(term):
+    """Fingerprint of a decision (cheap: the AST hash; the term itself is kept for the rare mismatch)."""
+    return (term.hash(), None, term)
+
+
+def _same_question(old, term, solver, scope_terms):
+    """Re-execution must ask the same question at the same place.  Harnesses may number fresh variables per run and the
+    code under analysis may build a term in another operand order: only a semantically different question is an error."""
+    if old[0] == term.hash():
+        return True
+    a, b = str(old[2])[:2000], str(term)[:2000]
+    if _DIGITS.sub("#", a) == _DIGITS.sub("#", b):
+        return True
+    return timed_check(solver, *scope_terms, old[2] != term) == z3.unsat
+
+
 class Explorer:
     def __init__(self, assumptions=(), max_paths=20000, max_seconds=600.0, max_realise=4096):
         self.assumptions = list(assumptions)
@@ -97,6 +117,10 @@ class Explorer:
             ent = self.prefix[i]
             if ent[0] != "b":
                 raise HarnessError("non-deterministic replay")
+            # re-execution must ask the same question at the same place (iteration over an unordered container of fresh
+            # objects in the code under analysis would break this silently)
+            if len(ent) > 3 and ent[3] is not None and not _same_question(ent[3], term, self.solver, self.scope_terms):
+                raise HarnessError(f"non-deterministic replay: decision {i} was about {str(ent[3][2])[:160]}; now {str(term)[:160]}")
             self.trace.append(ent)
             if ent[2] != "implied":
                 self._commit(term if ent[1] else z3.Not(term))
@@ -105,17 +129,17 @@ class Explorer:
         can_f = self._check(z3.Not(term))
         if can_t and can_f:
             # (a fork inside a merged arm becomes a decision for the whole path)
-            self.trace.append(["b", True, "open"])
+            self.trace.append(["b", True, "open", _fp(term)])
             self._commit(term)
             return True
         if not can_t and not can_f:
             if self.scope_terms:
                 # inside a merged arm that is dead on this path: the result is a don't-care
-                self.trace.append(["b", False, "implied"])
+                self.trace.append(["b", False, "implied", _fp(term)])
                 return False
             raise _Abort()
         # implied by the path condition (and the enclosing merged arms): nothing to record in pc
-        self.trace.append(["b", can_t, "implied"])
+        self.trace.append(["b", can_t, "implied", _fp(term)])
         return can_t
 
     def concretise(self, sym):
@@ -167,7 +191,7 @@ class Explorer:
             d = tr.pop()
             if d[0] == "b":
                 if d[2] == "open":
-                    return tr + [["b", False, "closed"]]
+                    return tr + [["b", False, "closed", d[3] if len(d) > 3 else None]]
             elif d[0] == "c":
                 if not d[2]:
                     return tr + [["c?", d[3] + [d[1]]]]
